@@ -119,15 +119,16 @@ func showDelivered(ms []*entities.Message) string {
 	fmt.Fprintf(&sb, "n=%d", len(ms))
 	for _, m := range ms {
 		set := m.GetSet()
-		kind := "d"
-		if set.GetSetType() == entities.Template {
-			kind = "t"
-		}
 		tid := 0
 		if len(set.GetRecords()) > 0 {
 			tid = int(set.GetRecords()[0].GetTemplateID())
 		}
-		fmt.Fprintf(&sb, " %s:%d:%d:%d:%d", kind, m.GetSequenceNum(), m.GetObsDomainID(), tid, len(set.GetRecords()))
+		if set.GetSetType() == entities.Template {
+			fmt.Fprintf(&sb, " t:%d:%d:%d:%d", m.GetSequenceNum(), m.GetObsDomainID(), tid, len(set.GetRecords()))
+		} else {
+			// rendered only now, after every later message was read: contents must not change
+			fmt.Fprintf(&sb, " d:%d:%d:%d:%s", m.GetSequenceNum(), m.GetObsDomainID(), tid, ShowRecords(set.GetRecords()))
+		}
 	}
 	return sb.String()
 }
@@ -193,31 +194,40 @@ func c11Run(stream []byte, cuts []int) string {
 	first := append([]*entities.Message{}, d.msgs...)
 	d.msgs = nil
 	d.mu.Unlock()
-	// another connection on the same collector must be unaffected: fresh domain, template + data
-	other := "bad"
+	// a second connection on the same collector afterwards: data for the first stream's template
+	// (no template re-sent) and a fresh domain; it must see exactly the table left behind
+	second := []*entities.Message{}
+	closed2 := false
 	c2, err := net.Dial("tcp", addr)
 	if err == nil {
 		waitConns(cp, 1, 10*time.Second)
+		c2.(*net.TCPConn).SetNoDelay(true)
 		for _, m := range c11Other() {
-			c2.Write(m)
+			if _, err := c2.Write(m); err != nil {
+				break
+			}
+			time.Sleep(300 * time.Microsecond)
 		}
-		c2.(*net.TCPConn).CloseWrite()
-		c2.SetReadDeadline(time.Now().Add(10 * time.Second))
-		c2.Read(one)
+		closed2 = waitConns(cp, 0, 250*time.Millisecond*slowFactor())
+		if !closed2 {
+			c2.(*net.TCPConn).CloseWrite()
+			c2.SetReadDeadline(time.Now().Add(10 * time.Second))
+			c2.Read(one)
+		}
 		c2.Close()
 		waitConns(cp, 0, 10*time.Second)
 		d.mu.Lock()
-		if len(d.msgs) == 2 {
-			other = "ok"
-		}
+		second = append(second, d.msgs...)
 		d.mu.Unlock()
 	}
-	return fmt.Sprintf("%s closed=%s other=%s", showDelivered(first), ShowBool(closed), other)
+	// the first connection's messages are rendered last
+	return fmt.Sprintf("%s closed=%s other %s closed=%s", showDelivered(first), ShowBool(closed), showDelivered(second), ShowBool(closed2))
 }
 
-// the two messages a second connection sends after the first one is finished
+// what a second connection sends after the first one is finished
 func c11Other() [][]byte {
-	return [][]byte{tplMsg(777, 0, 300, c11Template), dataMsgSeq(777, 1, 300, make([]byte, 14))}
+	return [][]byte{dataMsgSeq(1, 50, 256, make([]byte, 14)), tplMsg(777, 0, 300, c11Template),
+		dataMsgSeq(777, 1, 300, make([]byte, 14)), dataMsgSeq(1, 51, 258, []byte{10, 0, 0, 1, 2, 0xab, 0xcd})}
 }
 
 func joinInts(xs []int) string {
@@ -233,8 +243,12 @@ func joinInts(xs []int) string {
 
 func c11Case(stream []byte, cuts []int, lens []int) string {
 	o := c11Other()
-	return fmt.Sprintf("C11 cuts %d%s msgs %d%s other %s %s stream %s", len(cuts), joinInts(cuts), len(lens), joinInts(lens),
-		hex.EncodeToString(o[0]), hex.EncodeToString(o[1]), hex.EncodeToString(stream))
+	hs := make([]string, len(o))
+	for i, m := range o {
+		hs[i] = hex.EncodeToString(m)
+	}
+	return fmt.Sprintf("C11 cuts %d%s msgs %d%s other %d %s stream %s", len(cuts), joinInts(cuts), len(lens), joinInts(lens),
+		len(o), strings.Join(hs, " "), hex.EncodeToString(stream))
 }
 
 func parseC11(t []string) ([]byte, []int, []int) {
@@ -251,7 +265,8 @@ func parseC11(t []string) ([]byte, []int, []int) {
 		lens[i] = atoi(t[2+i])
 	}
 	t = t[2+m:]
-	b, err := hex.DecodeString(t[4])
+	no := atoi(t[1])
+	b, err := hex.DecodeString(t[3+no])
 	if err != nil {
 		panic(err)
 	}
@@ -288,6 +303,18 @@ func runC11(env *Env) {
 				return tplMsg(1, seq, 256, c11Template)
 			case "T2":
 				return tplMsg(2, seq, 257, c11Template[:2])
+			case "TV": // sourceIPv4Address + applicationId (octetArray, variable length)
+				return tplMsg(1, seq, 258, []fieldSpec{{8, 0, 4}, {95, 0, 65535}})
+			case "DV":
+				body := []byte{}
+				for i, n := 0, 1+r.Intn(3); i < n; i++ {
+					v := r.Bytes(1 + r.Intn(9))
+					body = append(append(append(body, r.Bytes(4)...), byte(len(v))), v...)
+				}
+				return dataMsgSeq(1, seq, 258, body)
+			case "XVtrunc": // the variable-length field announces more bytes than the set holds
+				body := append(append(r.Bytes(4), 9), r.Bytes(3)...)
+				return dataMsgSeq(1, seq, 258, body)
 			case "D":
 				n := 1 + r.Intn(3)
 				body := []byte{}
@@ -326,8 +353,8 @@ func runC11(env *Env) {
 			}
 			panic(kind)
 		}
-		valid := []string{"T", "D", "D", "T2", "D2", "D"}
-		invalid := []string{"Xver", "Xnotpl", "Xshort", "Xbadtpl", "Lzero"}
+		valid := []string{"T", "D", "D", "T2", "D2", "D", "TV", "DV", "DV"}
+		invalid := []string{"Xver", "Xnotpl", "Xshort", "Xbadtpl", "Lzero", "XVtrunc"}
 		lying := []string{"Llong", "Lshort"}
 		var lastLens []int
 		mkStream := func(kinds []string) []byte {
@@ -342,8 +369,8 @@ func runC11(env *Env) {
 		}
 		lensCopy := func() []int { return append([]int{}, lastLens...) }
 		randKinds := func(n int, badAt int, bad string) []string {
-			ks := []string{"T"}
-			for i := 1; i < n; i++ {
+			ks := []string{"T", "TV"}
+			for i := 2; i < n; i++ {
 				ks = append(ks, valid[r.Intn(len(valid))])
 			}
 			// data for 257 needs T2 first; keep it simple: order decides validity, the model knows
@@ -380,8 +407,8 @@ func runC11(env *Env) {
 		}
 		// (2) an invalid message at every position, with random cuts and uncut
 		for _, bad := range invalid {
-			for pos := 0; pos < 4; pos++ {
-				ks := randKinds(4, pos, bad)
+			for pos := 0; pos < 5; pos++ {
+				ks := randKinds(5, pos, bad)
 				s := mkStream(ks)
 				jobs = append(jobs, job{s, nil, "invalid/" + bad + "/uncut", lensCopy()})
 				jobs = append(jobs, job{s, randCuts(len(s), 1+r.Intn(6)), "invalid/" + bad + "/cuts", lensCopy()})
